@@ -1,6 +1,7 @@
 package meta
 
 import (
+	"bytes"
 	"errors"
 	"fmt"
 
@@ -252,20 +253,25 @@ func handleObjectWithAssociation(metaBkt *bbolt.Bucket, diff *CountersDiff, curr
 		for _, id := range children {
 			addr.SetObject(id)
 
+			garbageKey := mkGarbageKey(id)
+
 			obj, err := get(metaCursor, addr, false, true, currEpoch)
 			// Garbage mark should be put irrespective of errors,
 			// especially if the error is SplitInfo.
 			if err == nil {
-				if inGarbage(metaCursor, id) == statusAvailable {
+				// An object that already has a garbage mark (of any kind) or
+				// a tombstone has left GC and payload counters already.
+				k, _ := metaCursor.Seek(garbageKey)
+				if !bytes.Equal(k, garbageKey) && inGarbage(metaCursor, id) == statusAvailable {
 					inhumed++
-				}
-				// if object is stored, and it is regular object then update bucket
-				// with container size estimations
-				if obj.Type() == object.TypeRegular {
-					diff.Payload -= int64(obj.PayloadSize())
+					// if object is stored, and it is regular object then update bucket
+					// with container size estimations
+					if obj.Type() == object.TypeRegular {
+						diff.Payload -= int64(obj.PayloadSize())
+					}
 				}
 			}
-			err = metaBkt.Put(mkGarbageKey(id), nil)
+			err = metaBkt.Put(garbageKey, nil)
 			if err != nil {
 				return fmt.Errorf("put %s object to garbage bucket: %w", target, err)
 			}
